@@ -917,6 +917,7 @@ var Prop = &harness.Prop{
 		if full {
 			rdepth = 5
 		}
+		u = append(u, gmReconnectUnit(cbc, rdepth), gmReconnectUnit(gcm, rdepth))
 		for _, capacity := range []int{1, 2} {
 			u = append(u, reconnectUnit(0x0303, capacity, rdepth), reconnectUnit(0x0301, capacity, rdepth-1))
 		}
